@@ -132,7 +132,7 @@ AcctClause(e, created) ==
   IN Flag(e, "C09.Accounting", created = a.succ + a.fail + susp + live, <<created, a.succ, a.fail, susp, live>>)
 
 (* ---- C11 / C04 kill clauses: observed victims against the SPEC's demand figures of this tick ---- *)
-KScoreGt(x, y) == ProdCmp(<<x.mem, x.mem, y.ram>>, <<y.mem, y.mem, x.ram>>) = 1
+KScoreGt(x, y) == ScoreGt(x, y)
 KMem(kl, V) == SumSeq([j \in 1..Len(kl.cands) |-> IF kl.cands[j].cid \in V THEN kl.cands[j].mem ELSE 0])
 KCand(kl, c) == kl.cands[CHOOSE j \in 1..Len(kl.cands) : kl.cands[j].cid = c]
 KillClauses(e, pred) ==
